@@ -51,7 +51,7 @@ def run_pipeline(case):
     img = rs.randint(0, 200, shape).astype(np.int16)
     hdr = {'PixelSpacing': tuple(case['spacing']), 'RescaleSlope': case['slope'], 'RescaleIntercept': case['intercept'],
            'ConvolutionKernel': 'STANDARD', 'XRayTubeCurrent': 160, 'SliceThickness': 2.5, 'Other': [1, 2]}
-    random.seed(case['seed'])
+    R.seed(case['seed'])
     exp = list(hdr['PixelSpacing'])
     tol = 1e-9
     log = []
@@ -148,7 +148,7 @@ def run(seed=0, tier='quick', hints=None, broken=False):
         pool = step_pool(rng, shape)
         k = rng.choice([1, 1, 2, 3, 4])
         steps = [list(rng.choice(pool)) for _ in range(k)]
-        case = {'shape': shape, 'seed': rng.randint(0, 10 ** 6), 'steps': steps,
+        case = {'shape': shape, 'seed': R.pick_seed(rng), 'steps': steps,
                 'spacing': rng.choice([[0.7, 0.4], [0.35, 0.9], [1.0, 0.5], [0.625, 0.3125]]),
                 'slope': rng.choice([1, 1.0, 2]), 'intercept': rng.choice([-1024, -1024.0, 0])}
         # pipelines whose later steps would see a shape the pool was not drawn for are fine: sizes are absolute
@@ -162,7 +162,7 @@ def run(seed=0, tier='quick', hints=None, broken=False):
             viol.append({'site': bad[0] if bad[0].startswith('C16') else 'C16:' + bad[0], 'kind': 'pipeline', 'case': case,
                          'observed': bad[1], 'expected': bad[2], 'log': bad[3]})
     for i in range(n // 2):
-        case = {'shape': rng.sample([3, 4, 5, 6], 3), 'seed': rng.randint(0, 10 ** 6), 'spacing': [0.7, 0.4],
+        case = {'shape': rng.sample([3, 4, 5, 6], 3), 'seed': R.pick_seed(rng), 'spacing': [0.7, 0.4],
                 'slope': rng.choice([1, 2, 1.0, 2.0, 0.5]), 'intercept': rng.choice([-1024, 0, -1024.0, 10, 10.0]),
                 'raw_dtype': rng.choice(['int16', 'uint16'])}
         bad = check_rescale(case)
